@@ -602,8 +602,8 @@ func runC08(k int, rng *Rng) CaseResult {
 	go func() { wg.Wait(); close(done) }()
 	select {
 	case <-done:
-	case <-time.After(90 * time.Second):
-		w.incon = "concurrent workload did not finish in 90 s"
+	case <-time.After(20 * time.Second):
+		w.incon = "concurrent workload did not finish in 20 s"
 		res := w.finish([]string{mode}, false, nil)
 		res.Type, res.Prop, res.Case, res.Verdict = "case", "C08", k, "inconclusive"
 		emit(res)
